@@ -36,10 +36,14 @@ Proof. exact ratio_refl. Qed.
 Print Assumptions C06_ratio_refl.
 
 Theorem C06_ratio_rejects_mixed : forall u1 d1 u2 d2,
-  u1 <> u2 -> (u1 = UUnitless \/ u2 = UUnitless \/ u1 = UNone \/ u2 = UNone) ->
+  u1 <> u2 -> ~ d2 == 0 -> (u1 = UUnitless \/ u2 = UUnitless \/ u1 = UNone \/ u2 = UNone) ->
   time_ratio_gen u1 d1 u2 d2 = Err EValue.
 Proof. exact ratio_rejects_unitless. Qed.
 Print Assumptions C06_ratio_rejects_mixed.
+(* a zero step length to convert to is rejected as a division by zero (the generated definitions guard every division as Python does) *)
+Theorem C06_ratio_rejects_zero_dt : forall u1 d1 u2, ~ d1 == 0 -> time_ratio_gen u1 d1 u2 0 = Err EZeroDiv.
+Proof. exact ratio_zero_dt. Qed.
+Print Assumptions C06_ratio_rejects_zero_dt.
 
 Theorem C06_dur_physical : forall p y, tp_ok p -> tp_kind_of p = KDur -> tp_values p = Ok y ->
   y * (tp_parent_dt p * unit_days (tp_parent_unit p)) == tp_v p * (tp_self_dt p * unit_days (tp_unit p)).
